@@ -17,7 +17,7 @@ from pyvc.engine import (Contract, Val, VInt, VBool, VStr, VObj, VList, VTuple, 
 
 
 class Copy(Contract):
-    props = ('C10', 'C04', 'C05')
+    props = ('C10', 'C04', 'C05', 'C12', 'C13')   # the copy reads the body under the SAME configuration (limits, error map)
     file = 'ombott/request_pkg/request.py'
     qualname = 'BaseRequest.copy'
     expected_labels = ('copy.environ_is_a_whole_shallow_copy', 'copy.same_class_and_configuration', 'copy.original_not_written')
@@ -38,7 +38,10 @@ class Copy(Contract):
             r = VObj('NewRequest', {})
             c.built.append((args, kwargs, r))
             return r
-        self.stubs = {'Environ.copy': env_copy}
+        # reads of the environ are free (and may yield anything): whatever they say, the copy gets its OWN environ
+        def env_read(X, args, kwargs):
+            return [NONE, VOpaque(X.fresh(PyObj, 'environ_value'), 'value')][X.choose(2, 'environ entry: absent | present')]
+        self.stubs = {'Environ.copy': env_copy, 'Environ.get': env_read, 'Request._env_get': env_read, 'Request.get': env_read}
         self.me = VObj('Request', {'environ': self.env, 'config': self.cfg, '__class__': VFunc(cls_call, 'cls')})
         return {'self': self.me}
 
